@@ -488,7 +488,82 @@ func maxInt(a, b int) int {
 	return b
 }
 
+// ---- sources without print or block tags ------------------------------------------------------------
+
+type C16StaticCase struct {
+	Src BStr `json:"src"`
+}
+
+// checkC16Static: a source made of text, comments and escaped delimiters only renders the same from
+// its compiled form (with the stored AST, and with the AST dropped so that the source is used).
+func checkC16Static(c C16StaticCase) error {
+	src := string(c.Src)
+	eA := newEngine(map[string]string{"main": src, "outer": "[{% include 'main' %}]"})
+	want := render(eA, "main", map[string]interface{}{"v": "V"})
+	if want.Panic != "" {
+		return fmt.Errorf("source render panicked: %s", want.Panic)
+	}
+	ct, err := eA.CompileTemplate("main")
+	if err != nil {
+		if want.Err != "" {
+			return nil // does not parse: fails from source as well
+		}
+		return fmt.Errorf("compiling %s failed: %v", q(trunc(src)), err)
+	}
+	for variant := 0; variant < 2; variant++ {
+		cp := *ct
+		what := "compiled form"
+		if variant == 1 {
+			cp.AST = nil
+			what = "compiled form without the AST"
+		}
+		data, err := twig.SerializeCompiledTemplate(&cp)
+		if err != nil {
+			return fmt.Errorf("serialize failed: %v", err)
+		}
+		eB := twig.New()
+		eB.RegisterString("outer", "[{% include 'main' %}]")
+		if r := guard(func() (string, error) { return "", eB.LoadFromCompiledData(data) }); r.Failed() {
+			if want.Err != "" {
+				continue
+			}
+			return fmt.Errorf("%s: LoadFromCompiledData failed: %v; source %s", what, r, q(trunc(src)))
+		}
+		for _, name := range []string{"main", "outer"} {
+			w := want
+			if name == "outer" {
+				w = render(eA, "outer", map[string]interface{}{"v": "V"})
+			}
+			got := render(eB, name, map[string]interface{}{"v": "V"})
+			if got.Panic != "" || (got.Err != "") != (w.Err != "") || got.Out != w.Out {
+				return fmt.Errorf("%s of %s renders %v (as %q), the source renders %v", what, q(trunc(src)), got, name, w)
+			}
+		}
+	}
+	return nil
+}
+
+func TestC16Static(t *testing.T) {
+	r := NewRec(t, "C16", "exhaustive: 40 sources without print or block tags (plain text, comments in every position, dashed comments, escaped delimiters, lone braces, tag syntax inside comments, unclosed comments) x {as written, padded beyond 4096 bytes}; compiled, serialised, loaded into a second engine with and without the AST, rendered directly and through an include; oracle: same result as the source; non-trivial = the source contains a comment or an escape")
+	defer r.Flush()
+	r.SetExhaustive()
+	srcs := []string{"", "plain", "a{# c #}b", "{# only #}", "{##}", "x {#- c -#} y", "x{#- c #} y", "x {# c -#}y", "\\{{ v }}", "a\\{% if v %}", "a\\{# c #}", "{", "{ {", "}}", "%}", "#}", "a{# {{ v }} #}b", "a{# {% if %} #}b",
+		"line1\n{# c #}\nline2", "{# a #}{# b #}", "{# a #} {# b #}", "t{# a #}", "{# a #}t", "{#", "a{#", "{# {# nested #}", "{#}", "{# # #}", "{# } #}", "\u00e9{# \u00e9 #}\u00e9", "\xff{# \xfe #}\xfd",
+		"\x00{# \x00 #}\x00", "a{ # c # }b", "a{#c#}b{#d#}c{#e#}d", "<style>a{b:c}</style>{# css #}", "{a}{# c #}{b}", "$ {# c #} %", "{{# c #}", "{# c #}}", "{%# c #}"}
+	pad := strings.Repeat("0123456789abcdef", 260)
+	for _, s0 := range srcs {
+		for _, s1 := range []string{s0, s0 + pad, pad + s0} {
+			c := C16StaticCase{Src: BStr(s1)}
+			r.Case(s1, strings.Contains(s0, "{#") || strings.Contains(s0, "\\"), q(trunc(s1)))
+			if err := checkC16Static(c); err != nil {
+				r.FailEnum(t, "C16.static", c, err)
+			}
+		}
+	}
+}
+
 func init() {
+	reg("C16.static", checkC16Static)
 	reg("C16.roundtrip", checkC16RoundTrip)
 	reg("C16.render", checkC16Render)
 	reg("C16.file", checkC16File)
